@@ -332,6 +332,37 @@ class Ctx:
         self.obligations.append(Obligation(name, self.function, path, status, model, dt, backend,
                                            detail=detail, kind=kind))
 
+    def nonvacuous(self):
+        """Is the current path (with the quantified facts) satisfiable?  True / False / None (unknown)."""
+        s = self.solver
+        if not self.qfacts:
+            r = s.check()
+            return True if r == z3.sat else (False if r == z3.unsat else None)
+        for bound in (1, 2):
+            s.push()
+            try:
+                for ln in self.seq_lens:
+                    s.add(ln <= bound)
+                for q in self.qfacts:
+                    for inst in instantiate(q, bound):
+                        s.add(inst)
+                s.set("timeout", 3000)
+                if s.check() == z3.sat:
+                    return True
+            finally:
+                s.set("timeout", self.timeout_ms)
+                s.pop()
+        s.push()
+        try:
+            for q in self.qfacts:
+                s.add(q)
+            s.set("timeout", 1500)
+            r = s.check()
+            return True if r == z3.sat else (False if r == z3.unsat else None)
+        finally:
+            s.set("timeout", self.timeout_ms)
+            s.pop()
+
     def discharge(self, goal):
         """valid / refuted(model) / unknown for `path condition => goal`."""
         s = self.solver
@@ -386,8 +417,14 @@ class Ctx:
 
     # ------------------------------------------------------------------ heap
     def alloc(self, hobj):
-        if self.nofork:
-            raise NeedFork()
+        # allocating a fresh object is not an observable side effect: allowed in merge scopes
+        addr = self.next_addr
+        self.next_addr += 1
+        self.heap[addr] = hobj
+        return VRef(addr)
+
+    def alloc_pure(self, hobj):
+        """Allocation of a fresh immutable-by-convention cell (allowed inside merge scopes)."""
         addr = self.next_addr
         self.next_addr += 1
         self.heap[addr] = hobj
